@@ -809,6 +809,10 @@ class Frame(object):
             # iterating a (filtered) identity comprehension is iterating the underlying collection (with the filter)
             t = re.sub(re.escape(itv.var) + r'(?![\d_])(?!\.\d)', bname, itv.coll)
             return None, t
+        # list(X) / tuple(X) / iter(X) as an iteration source yields the elements of X (a snapshot differs only under mutation)
+        _m = re.match(r'^(?:list|tuple|iter)\((.*)\)$', t)
+        if _m and isinstance(itv, Sym) and _balanced(_m.group(1)) and ', ' not in _toplevel(_m.group(1)):
+            t = _m.group(1)
         if t in self.sc.unroll:
             return self.sc.unroll[t], t
         if isinstance(itv, ListV) and len(itv.elems) <= 12:
@@ -1453,6 +1457,8 @@ class Frame(object):
             hi = self.text(sl.upper, st) if sl.upper is not None else ''
             if sl.step is not None:
                 return Sym('%s[%s:%s:%s]' % (render(base), lo, hi, self.text(sl.step, st)))
+            if isinstance(base, Const) and type(base.value) is str and re.match(r'^-?\d*$', lo) and re.match(r'^-?\d*$', hi):
+                return Const(base.value[(int(lo) if lo else None):(int(hi) if hi else None)])
             if isinstance(base, Bytes):
                 its = merge_consts(base.items)
                 if len(its) == 1 and its[0][0] == 'C':
@@ -1522,6 +1528,12 @@ class Frame(object):
                     o = kwargs.get('order', args[2] if len(args) > 2 else None)
                     return Bytes([('SYM', 'int_to_bytes(%s, %s, %s)' % (render(args[0]), render(w), render(o)))])
                 return Bytes([('INT', render(w), render(args[0]))])
+            if isinstance(recv, Const) and type(recv.value) in (str, bytes) and meth in PURE_STR_METHODS and not kwargs and \
+                    all(isinstance(a, Const) and type(a.value) in (str, bytes, int, tuple) for a in args):
+                try:     # constant folding of a pure text method on a literal (scenario-given keys such as 'h_Issuer')
+                    return Const(getattr(recv.value, meth)(*[a.value for a in args]))
+                except Exception:
+                    pass
             if isinstance(recv, Bytes) or (isinstance(func.value, ast.Name) and isinstance(st.env.get(func.value.id), Bytes)):
                 tgt = recv
                 if meth == 'append' and len(args) == 1:
@@ -1563,6 +1575,8 @@ class Frame(object):
                     for e in args[0].elems:
                         its.extend(as_items(e))
                     return Bytes(its)
+                if isinstance(args[0], EachV) and not merge_consts(recv.items):
+                    return Bytes(as_items(args[0]))      # b''.join(f(x) for x in xs) is the loop appending f(x)
                 if not merge_consts(recv.items):
                     return Bytes([('SYM', 'join(%s)' % render(args[0]))])
                 return Bytes([('SYM', '%s.join(%s)' % (render(recv), render(args[0])))])
@@ -1680,6 +1694,10 @@ class Frame(object):
             if n in ('iter', 'list', 'tuple') and len(args) == 1 and isinstance(args[0], EachV) and not kwargs:
                 record(n)
                 return args[0]
+            if n == 'divmod' and len(args) == 2 and not kwargs:
+                # divmod(a, b) == (a // b, a % b)
+                record(n)
+                return ListV([self.binop(ast.FloorDiv(), args[0], args[1]), self.binop(ast.Mod(), args[0], args[1])], 'tuple')
             if n == 'reversed' and len(args) == 1 and isinstance(args[0], ListV):
                 rev = []
                 for e in reversed(args[0].elems):
@@ -1884,6 +1902,9 @@ def normalise_path(p):
     """Aliases decided from the class table once (ParentRef.parent returns _parent)."""
     return p.replace('.parent.', '._parent.') if '.parent.' in p else (p[:-7] + '._parent' if p.endswith('.parent') else p)
 
+
+PURE_STR_METHODS = {'startswith', 'endswith', 'lower', 'upper', 'strip', 'lstrip', 'rstrip', 'find', 'index', 'count', 'partition',
+                    'rpartition', 'isdigit', 'isalpha', 'replace'}
 
 OPS = {ast.Add: '+', ast.Sub: '-', ast.Mult: '*', ast.Div: '/', ast.FloorDiv: '//', ast.Mod: '%', ast.Pow: '**',
        ast.LShift: '<<', ast.RShift: '>>', ast.BitOr: '|', ast.BitAnd: '&', ast.BitXor: '^', ast.MatMult: '@',
